@@ -73,6 +73,7 @@ struct HInput : public input {
 	int convert(type_t t, void *ptr) override {
 		if (t == (type_t) TypeUnixSocket) { if (ptr) *(int *) ptr = fd; return 0; }
 		if (t == TypeMetaPtr) { if (ptr) *(metatype **) ptr = this; return 0; }
+		{ static const named_traits *it = 0; if (!it) { Harness h; it = mpt_input_type_traits(); } if (it && t == (type_t) it->type) { if (ptr) *(input **) ptr = this; return (int) it->type; } }
 		return BadType; }
 	void unref() override { Harness h; if (!g_input_live.count(this)) { pend("unref-after-destroy", "a reference was dropped on an input that is already destroyed"); return; } if (--refs <= 0) g_input_live.erase(this); }
 	uintptr_t addref() override { Harness h; if (!g_input_live.count(this)) { pend("addref-after-destroy", "a reference was taken on an input that is already destroyed"); return 0; } return (uintptr_t) ++refs; }
@@ -741,6 +742,32 @@ struct RefsWorld : World {
 					x = x * 1664525u + 1013904223u;
 					unsigned act = (x >> 12) % 6; int i = (int) ((x >> 8) % NI);
 					uint64_t fn = ((x >> 4) & 3) == 0 ? 1 + ((x >> 6) % 2) : 0; bool fired = false; const char *what = "?";
+					if (k == 2 && (op.b & 4) && g_input_live.count(in[i]) && mine[i]) {
+						// the input is the value of the configuration element "mpt.connect"; the notifier is configured from it twice. It takes a
+						// reference when it registers the input and none when it refuses it (the slot of that descriptor is taken)
+						what = "configure (twice)";
+						mpt::path cp; cp.sep = '.'; cp.assign = 0; node *cn = 0;
+						{ Sut su; mpt_path_set(&cp, "mpt.connect", -1); metatype *view = mpt_config_global(&cp); if (view) { view->convert(TypeNodePtr, &cn); view->unref(); } }
+						if (cn) {
+							{ Sut su; in[i]->addref(); } cn->_meta = in[i];
+							int r1, r2; { Sut su; r1 = mpt_notify_config(no, 0); }
+							bool stored = false; { buffer *sb = *reinterpret_cast<buffer **>(&no->_slot); if (sb && (size_t) in[i]->fd < sb->_used / sizeof(void *)) stored = ((input **) (sb + 1))[in[i]->fd] == in[i]; }
+							reg[i] = stored;
+							// (the second time with the configuration handed in: the process-wide one, or its 'mpt' sub-tree)
+							if (x & 0x100000) { config *gc = 0; metatype *gm = 0; { Sut su; mpt::path sp; sp.sep = '.'; sp.assign = 0; mpt_path_set(&sp, "mpt", -1); gm = mpt_config_global(&sp); if (gm) gm->convert(TypeConfigPtr, &gc); }
+								if (gc) { Sut su; r2 = mpt_notify_config(no, gc); } else r2 = -1; if (gm) { Sut su; gm->unref(); } st.hit("probe:notifier_configured_from_given_config"); }
+							else { Sut su; r2 = mpt_notify_config(no, 0); }
+							log.ev("    notifier configured from 'mpt.connect' = input %d: %d, again: %d (registered %d)", i, r1, r2, (int) reg[i]);
+							long want = mine[i] + 1 + (reg[i] ? 1 : 0);
+							if (g_input_live.count(in[i]) && in[i]->refs != want) fail(in[i]->refs > want ? "never-destroyed" : "count-mismatch", "input %d is held by the harness (%ld), a configuration element and the notifier (%d) but counts %ld references after the notifier was configured from it twice (%d, %d)", i, mine[i], (int) reg[i], in[i]->refs, r1, r2);
+							cn->_meta = 0; { Sut su; in[i]->unref(); }
+							st.hit("probe:notifier_configured_from_input");
+						}
+						{ Sut su; mpt_config_set(0, "mpt", 0, '.', 0); }
+						log.ev("    notifier %s input %d", what, i);
+						verifyN(what);
+						continue;
+					}
 					switch (act) {
 					case 0: case 1: { what = "add";
 						if (reg[i] || !g_input_live.count(in[i]) || !mine[i]) break;
